@@ -531,86 +531,6 @@ fn c08_witness() {
 // Window edge: call-site contract of the compressors, match search replaced by a monitor
 // ---------------------------------------------------------------------------------------------
 
-const BIG: usize = 4098;
-
-// @tier thorough
-// @timeout 5400
-// @mem 44
-// @bounds LZ10 compress on a concrete input of 4098 bytes with the match search replaced by a contract monitor that reports "no match": every one of the 4098 search calls is checked
-// @cbmc --max-field-sensitivity-array-size 4200
-// @claims LZ10 call-site contract across the window edge: the window offered to the search is exactly the last min(position, 4096) bytes ending at the cursor (never more: displacement fits 12 bits; never less: the whole window is used), the look-ahead is min(remaining, 18); the all-literal stream has the expected size
-// @assume mila::lz13::get_occurrence_length stubbed by stubs::occurrence_contract_monitor in this harness only (the search itself is decided by c08_match_search_kernel)
-// @unwindset compress=4200,extend_with=4200,extend_desugared=4200
-#[kani::proof]
-#[kani::unwind(20)]
-#[kani::stub(mila::lz13::get_occurrence_length, crate::stubs::occurrence_contract_monitor)]
-fn c08_lz10_window_contract() {
-    unsafe {
-        crate::stubs::SEARCH_LOOKAHEAD = 0x12;
-    }
-    let x = [0x55u8; BIG];
-    let out = keep(LZ10CompressionFormat {}.compress(&x)).unwrap();
-    assert!(unsafe { crate::stubs::SEARCH_CALLS } == BIG, "C08: one search per literal position");
-    assert!(unsafe { crate::stubs::SEARCH_MAX_WINDOW } == 0x1000, "C10: the window must reach 4096 bytes");
-    assert!(out.len() == 4 + BIG + BIG / 8, "C08: all-literal stream size");
-    std::mem::forget(out);
-}
-
-// @tier thorough
-// @timeout 5400
-// @mem 44
-// @bounds LZ13 compress on a concrete input of 4098 bytes with the match search replaced by the contract monitor and the wrapper-length helper stubbed
-// @cbmc --max-field-sensitivity-array-size 4200
-// @claims LZ13 call-site contract across the window edge: window = the last min(position, 4096) bytes ending at the cursor, look-ahead = min(remaining, 4096)
-// @assume mila::lz13::get_occurrence_length and calculate_lz13_header stubbed in this harness only
-// @unwindset compress=4200,extend_with=4200,extend_desugared=4200,append=4200
-#[kani::proof]
-#[kani::unwind(20)]
-#[kani::stub(mila::lz13::get_occurrence_length, crate::stubs::occurrence_contract_monitor)]
-#[kani::stub(mila::lz13::calculate_lz13_header, crate::stubs::lz13_header_stub)]
-fn c09_lz13_window_contract() {
-    unsafe {
-        crate::stubs::SEARCH_LOOKAHEAD = 0x1000;
-    }
-    let x = [0x55u8; BIG];
-    let out = keep(LZ13CompressionFormat {}.compress(&x)).unwrap();
-    assert!(unsafe { crate::stubs::SEARCH_CALLS } == BIG, "C09: one search per literal position");
-    assert!(unsafe { crate::stubs::SEARCH_MAX_WINDOW } == 0x1000, "C10: the window must reach 4096 bytes");
-    assert!(out.len() == 8 + BIG + BIG / 8, "C09: all-literal stream size");
-    std::mem::forget(out);
-}
-
-// @tier thorough
-// @timeout 5400
-// @mem 44
-// @bounds as c08_lz10_window_contract and c09_lz13_window_contract (solver-chosen format)
-// @cbmc --max-field-sensitivity-array-size 4200
-// @claims C10 effectiveness at the call sites: both compressors offer the whole 4096-byte window and their full match length (18 / 4096) to the match search
-// @assume mila::lz13::get_occurrence_length and calculate_lz13_header stubbed in this harness only
-// @unwindset compress=4200,extend_with=4200,extend_desugared=4200,append=4200
-#[kani::proof]
-#[kani::unwind(20)]
-#[kani::stub(mila::lz13::get_occurrence_length, crate::stubs::occurrence_contract_monitor)]
-#[kani::stub(mila::lz13::calculate_lz13_header, crate::stubs::lz13_header_stub)]
-fn c10_window_and_lookahead_contract() {
-    let lz13: bool = kani::any();
-    let x = [0x55u8; BIG];
-    if lz13 {
-        unsafe {
-            crate::stubs::SEARCH_LOOKAHEAD = 0x1000;
-        }
-        let out = keep(LZ13CompressionFormat {}.compress(&x)).unwrap();
-        std::mem::forget(out);
-    } else {
-        unsafe {
-            crate::stubs::SEARCH_LOOKAHEAD = 0x12;
-        }
-        let out = keep(LZ10CompressionFormat {}.compress(&x)).unwrap();
-        std::mem::forget(out);
-    }
-    assert!(unsafe { crate::stubs::SEARCH_MAX_WINDOW } == 0x1000, "C10: the window must reach 4096 bytes");
-    kani::cover!(lz13);
-}
 
 // @tier quick
 // @timeout 1800
@@ -656,4 +576,148 @@ fn c08_match_search_kernel() {
     }
     kani::cover!(len == 3 && disp == 4);
     kani::cover!(len == 0);
+}
+
+// ---------------------------------------------------------------------------------------------
+// Window edge in the quick tier: the contract monitor in fast-forward mode
+// ---------------------------------------------------------------------------------------------
+
+const EDGE: usize = 4100;
+
+/// Byte stream without a repeated 3-byte sequence (checked for the first 4300 bytes): no back-reference
+/// of length >= 3 exists inside it.
+fn lcg_stream(n: usize) -> Vec<u8> {
+    let mut s: u32 = 4;
+    let mut out = Vec::with_capacity(n);
+    for _ in 0..n {
+        s = s.wrapping_mul(1103515245).wrapping_add(12345);
+        out.push((s >> 16) as u8);
+    }
+    out
+}
+
+fn native_compress(lz13: bool, x: &[u8]) -> Vec<u8> {
+    if lz13 {
+        LZ13CompressionFormat {}.compress(x).expect("C09: compress")
+    } else {
+        LZ10CompressionFormat {}.compress(x).expect("C08: compress")
+    }
+}
+
+fn native_decompress(lz13: bool, x: &[u8]) -> Vec<u8> {
+    if lz13 {
+        LZ13CompressionFormat {}.decompress(x).expect("C09: decompress")
+    } else {
+        LZ10CompressionFormat {}.decompress(x).expect("C08: decompress")
+    }
+}
+
+/// Native confirmation of a call-site contract violation found with the monitor stub (replay only:
+/// `#[kani::stub]` is not applied in a native run, so the replayed harness probes the real
+/// compressor with concrete inputs that sit exactly on the window edge instead):
+/// (a) the only earlier occurrence of the tail lies 4097 bytes back -> must round-trip (a window
+///     larger than 4096 emits a displacement that does not fit 12 bits);
+/// (b) the only earlier occurrence lies exactly 4096 bytes back -> the C10 size bound for period
+///     4096 must hold (a smaller window emits literals only);
+/// (c) LZ10 only: 1802 equal bytes -> the C10 size bound for L = 18 must hold.
+fn native_window_probe(lz13: bool) {
+    let base = lcg_stream(4097);
+    let mut a = base.clone();
+    a.extend_from_slice(&base[..8]);
+    let back = native_decompress(lz13, &native_compress(lz13, &a));
+    assert!(back == a, "C08/C09: an occurrence 4097 bytes back was referenced: the displacement does not fit the 12-bit field");
+    let mut b = base[..4096].to_vec();
+    b.extend_from_slice(&base[..18]);
+    let out = native_compress(lz13, &b);
+    let (header, ref_bytes) = if lz13 { (8, 4) } else { (4, 2) };
+    let tokens = 4098 + 2;
+    assert!(out.len() <= header + 4098 + 2 * ref_bytes + (tokens + 7) / 8, "C10: an occurrence exactly 4096 bytes back was not used: the window is smaller than 4096 bytes");
+    if !lz13 {
+        let c = vec![7u8; 1802];
+        let out = native_compress(false, &c);
+        let refs = (1801 + 17) / 18 + 1;
+        assert!(out.len() <= 4 + 3 + 2 * refs + (3 + refs + 7) / 8, "C10: LZ10 does not use its full match length of 18");
+    }
+}
+
+fn window_edge(lz13: bool) {
+    if is_playback() {
+        native_window_probe(lz13);
+        return;
+    }
+    let x = [0x55u8; EDGE];
+    if lz13 {
+        unsafe {
+            crate::stubs::SEARCH.lookahead = 0x1000;
+            crate::stubs::SEARCH.ff_step = 16;
+            crate::stubs::SEARCH.ff_until = 4085;
+        }
+        let out = keep(LZ13CompressionFormat {}.compress(&x)).unwrap();
+        // cursor 0, 1: literals; 2 + 16k (k = 0..=254): 255 references; 4082..=4099: 18 literals
+        assert!(unsafe { crate::stubs::SEARCH.calls } == 275, "C09: one search per token");
+        assert!(out.len() == 8 + 20 + 255 * 2 + 35, "C09: 20 literals, 255 two-byte references, one flag byte per eight tokens");
+        std::mem::forget(out);
+    } else {
+        unsafe {
+            crate::stubs::SEARCH.lookahead = 0x12;
+            crate::stubs::SEARCH.ff_step = 18;
+            crate::stubs::SEARCH.ff_until = 4085;
+        }
+        let out = keep(LZ10CompressionFormat {}.compress(&x)).unwrap();
+        // cursor 0, 1: literals; 2 + 18k (k = 0..=225): 226 references; 4070..=4099: 30 literals
+        assert!(unsafe { crate::stubs::SEARCH.calls } == 258, "C08: one search per token");
+        assert!(out.len() == 4 + 32 + 226 * 2 + 33, "C08: 32 literals, 226 two-byte references, one flag byte per eight tokens");
+        std::mem::forget(out);
+    }
+    assert!(unsafe { crate::stubs::SEARCH.max_window } == 0x1000, "C10: the window must reach 4096 bytes");
+}
+
+// @tier quick
+// @timeout 1800
+// @mem 16
+// @bounds LZ10 compress on a concrete input of 4100 equal bytes; the match search is replaced by the contract monitor in fast-forward mode (answers "18 bytes at displacement 2" until the cursor reaches 4070, then "no match"): every call site state with cursor in {0, 1, 2+18k, 4070..=4099} is checked, i.e. every cursor around the 4096-byte window edge
+// @cbmc --max-field-sensitivity-array-size 4200
+// @claims LZ10 call-site contract across the window edge: the window offered to the search is exactly the last min(cursor, 4096) bytes ending at the cursor (never more: the displacement fits 12 bits; never less: the whole window is used), the look-ahead is min(remaining, 18); token and flag layout of the resulting stream
+// @assume mila::lz13::get_occurrence_length stubbed by stubs::occurrence_contract_monitor in this harness only (the search itself is decided by c08_match_search_kernel); a violation is confirmed natively by native_window_probe (concrete inputs with the only occurrence 4097 / 4096 bytes back)
+// @unwindset compress=300
+#[kani::proof]
+#[kani::unwind(40)]
+#[kani::stub(mila::lz13::get_occurrence_length, crate::stubs::occurrence_contract_monitor)]
+fn c08_lz10_window_edge() {
+    window_edge(false);
+}
+
+// @tier quick
+// @timeout 1800
+// @mem 16
+// @bounds LZ13 compress on 4100 equal bytes, monitor in fast-forward mode (16 bytes at displacement 2 until the cursor reaches 4082, then "no match"); wrapper-length helper stubbed
+// @cbmc --max-field-sensitivity-array-size 4200
+// @claims LZ13 call-site contract across the window edge: window = the last min(cursor, 4096) bytes ending at the cursor, look-ahead = min(remaining, 4096); token and flag layout of the resulting stream
+// @assume mila::lz13::get_occurrence_length and calculate_lz13_header stubbed in this harness only; a violation is confirmed natively by native_window_probe
+// @unwindset compress=300
+#[kani::proof]
+#[kani::unwind(40)]
+#[kani::stub(mila::lz13::get_occurrence_length, crate::stubs::occurrence_contract_monitor)]
+#[kani::stub(mila::lz13::calculate_lz13_header, crate::stubs::lz13_header_stub)]
+fn c09_lz13_window_edge() {
+    window_edge(true);
+}
+
+// @tier quick
+// @timeout 1800
+// @mem 16
+// @bounds as c08_lz10_window_edge and c09_lz13_window_edge (solver-chosen format)
+// @cbmc --max-field-sensitivity-array-size 4200
+// @claims C10 effectiveness at the call sites: both compressors offer the whole 4096-byte window and their full match length (18 / 4096) to the match search at every cursor around the window edge
+// @assume mila::lz13::get_occurrence_length and calculate_lz13_header stubbed in this harness only; a violation is confirmed natively by native_window_probe
+// @unwindset compress=300
+#[kani::proof]
+#[kani::unwind(40)]
+#[kani::stub(mila::lz13::get_occurrence_length, crate::stubs::occurrence_contract_monitor)]
+#[kani::stub(mila::lz13::calculate_lz13_header, crate::stubs::lz13_header_stub)]
+fn c10_window_edge() {
+    let lz13: bool = kani::any();
+    window_edge(lz13);
+    kani::cover!(lz13);
+    kani::cover!(!lz13);
 }
